@@ -4,7 +4,7 @@ Helper lemmas about the integer-literal recognisers (Model/IntLit.lean), used by
 import Pywbem.Model.IntLit
 
 namespace Proofs.IntLit
-open Pywbem.Model.IntLit
+open Pywbem.Model.IntLit Pywbem.Model.IntLit.Dsp0004
 
 theorem splitSign_eq (s : Str) :
     s = (splitSign s).2 ∨ s = '+' :: (splitSign s).2 ∨ s = '-' :: (splitSign s).2 := by
@@ -114,5 +114,315 @@ theorem intlit_noDot {s : Str} {v : Int} (h : integerValueToInt s = some v) : No
         · exact hexBody_noDot h
   refine ⟨noDot_of_rest key.1, ?_⟩
   intro e; subst e; exact key.2 (by simp [splitSign])
+
+/-! ### recogniser vs the DSP0004 grammar -/
+
+theorem natOf_acc (base : Nat) (ds : Str) (acc : Nat) :
+    ds.foldl (fun a c => a * base + digitVal c) acc = acc * base ^ ds.length + posValue base ds := by
+  induction ds generalizing acc with
+  | nil => simp [posValue]
+  | cons c r ih =>
+    simp only [List.foldl_cons, ih, posValue, List.length_cons, Nat.pow_succ]
+    rw [Nat.add_mul, Nat.mul_assoc, Nat.mul_comm base (base ^ r.length), Nat.add_assoc]
+
+theorem natOf_eq_posValue (base : Nat) (ds : Str) : natOf base ds = posValue base ds := by
+  unfold natOf; rw [natOf_acc]; simp
+
+theorem splitSign_sign (s : Str) :
+    ∃ sg : Sign, s = sg.chars ++ (splitSign s).2 ∧ ∀ n, signed (splitSign s).1 n = sg.apply n := by
+  unfold splitSign
+  split
+  · exact ⟨.plus, by simp [Sign.chars], fun n => by simp [signed, Sign.apply]⟩
+  · exact ⟨.minus, by simp [Sign.chars], fun n => by simp [signed, Sign.apply]⟩
+  · exact ⟨.none, by simp [Sign.chars], fun n => by simp [signed, Sign.apply]⟩
+
+theorem splitSign_chars (sg : Sign) (c : Char) (t : Str) (h1 : c ≠ '+') (h2 : c ≠ '-') :
+    splitSign (sg.chars ++ c :: t) = (decide (sg = .minus), c :: t) := by
+  cases sg with
+  | plus => simp [Sign.chars, splitSign]
+  | minus => simp [Sign.chars, splitSign]
+  | none =>
+    simp only [Sign.chars, List.nil_append]
+    unfold splitSign
+    split
+    · rename_i heq; simp at heq; exact absurd heq.1 h1
+    · rename_i heq; simp at heq; exact absurd heq.1 h2
+    · simp
+
+theorem signed_decide (sg : Sign) (n : Nat) : signed (decide (sg = .minus)) n = sg.apply n := by
+  cases sg <;> simp [signed, Sign.apply]
+
+theorem isOct_isOctDigit {c : Char} (h : isOct c = true) : isOctDigit c = true := by
+  simp [isOct, isOctDigit] at *; omega
+
+/-- **soundness of the recogniser**: every accepted string derives from DSP0004 integerValue with that value -/
+theorem intlit_sound {s : Str} {v : Int} (h : integerValueToInt s = some v) : IsIntegerValue s v := by
+  obtain ⟨sg, hs, hsg⟩ := splitSign_sign s
+  unfold integerValueToInt at h
+  split at h
+  · -- binary
+    rename_i v' hv
+    simp at h; subst h
+    unfold matchBinary binaryBody at hv
+    split at hv
+    · simp at hv
+    · rename_i b hb
+      split at hv
+      · rename_i hc
+        simp only [Bool.and_eq_true, Bool.or_eq_true, beq_iff_eq, Bool.not_eq_true', List.isEmpty_eq_false_iff] at hc
+        obtain ⟨ys, hys⟩ := List.getLast?_eq_some_iff.mp hb
+        rw [hys, List.dropLast_concat] at hc hv
+        simp at hv; subst hv
+        rw [hsg, natOf_eq_posValue, hs, hys]
+        exact .binary sg ys b hc.1.2 (fun c hc' => List.all_eq_true.mp hc.2 c hc') hc.1.1
+      · simp at hv
+  · split at h
+    · -- octal
+      rename_i v' hv
+      simp at h; subst h
+      unfold matchOctal at hv
+      cases hr : (splitSign s).2 with
+      | nil => rw [hr] at hv; simp [octalBody] at hv
+      | cons c ds =>
+        rw [hr] at hv
+        simp only [octalBody] at hv
+        split at hv
+        · rename_i hc
+          simp at hv; subst hv
+          obtain ⟨rfl, hall⟩ := hc
+          rw [hsg, natOf_eq_posValue, hs, hr]
+          by_cases hds : ds = []
+          · subst hds
+            have : sg.apply (posValue 8 []) = 0 := by cases sg <;> simp [Sign.apply, posValue]
+            rw [this]; exact .decimalZero sg
+          · exact .octal sg ds hds (fun c hc' => isOct_isOctDigit (List.all_eq_true.mp hall c hc'))
+        · simp at hv
+    · split at h
+      · -- decimal
+        rename_i v' hv
+        simp at h; subst h
+        unfold matchDecimal at hv
+        cases hr : (splitSign s).2 with
+        | nil => rw [hr] at hv; simp [decimalBody] at hv
+        | cons d ds =>
+          rw [hr] at hv
+          simp only [decimalBody] at hv
+          split at hv
+          · rename_i hc
+            simp at hv; subst hv
+            obtain ⟨rfl, rfl⟩ := hc
+            rw [hs, hr]; exact .decimalZero sg
+          · split at hv
+            · rename_i hc
+              simp at hv; subst hv
+              rw [hsg, natOf_eq_posValue, hs, hr]
+              exact .decimal sg d ds hc.1 (fun c hc' => List.all_eq_true.mp hc.2 c hc')
+            · simp at hv
+      · -- hex
+        unfold matchHex hexBody at h
+        split at h
+        · rename_i z x ds hr
+          split at h
+          · rename_i hc
+            simp at h; subst h
+            obtain ⟨rfl, hx, hne, hall⟩ := hc
+            rw [hsg, natOf_eq_posValue, hs, hr]
+            exact .hex sg x ds hx hne (fun c hc' => List.all_eq_true.mp hall c hc')
+          · simp at h
+        · simp at h
+
+theorem isBin_not_sign {c : Char} (h : isBin c = true) : c ≠ '+' ∧ c ≠ '-' := by
+  constructor <;> (intro e; subst e; simp [isBin] at h)
+theorem isPos_not_sign {c : Char} (h : isPos c = true) : c ≠ '+' ∧ c ≠ '-' := by
+  constructor <;> (intro e; subst e; simp [isPos] at h)
+
+theorem binaryBody_none_of_last {neg : Bool} {r : Str} (h : ∀ l, r.getLast? = some l → l ≠ 'b' ∧ l ≠ 'B') :
+    binaryBody neg r = none := by
+  unfold binaryBody
+  split
+  · rfl
+  · rename_i b hb
+    have := h b hb
+    simp [this.1, this.2]
+
+theorem isDec_not_b {c : Char} (h : isDec c = true) : c ≠ 'b' ∧ c ≠ 'B' := by
+  constructor <;> (intro e; subst e; simp [isDec] at h)
+theorem isPos_isDec {c : Char} (h : isPos c = true) : isDec c = true := by
+  simp [isPos, isDec] at *; omega
+theorem isOct_isDec {c : Char} (h : isOct c = true) : isDec c = true := by
+  simp [isOct, isDec] at *; omega
+
+/-- **completeness of the recogniser, partial** (known finding C20-KF1): every DSP0004 integerValue is
+    accepted with its value, except octal literals with a digit 0 after the leading 0.
+    Full statement (does NOT hold, see `intlit_octal_zero_witness`):
+      `IsIntegerValue s v → integerValueToInt s = some v` -/
+theorem intlit_complete_partial {s : Str} {v : Int} (h : IsIntegerValue s v) (hk : ¬ OctalWithZeroDigit s) :
+    integerValueToInt s = some v := by
+  cases h with
+  | binary sg ds b hne hall hb =>
+    cases ds with
+    | nil => exact absurd rfl hne
+    | cons c t =>
+      have hc := isBin_not_sign (hall c (by simp))
+      unfold integerValueToInt matchBinary
+      rw [show sg.chars ++ (c :: t ++ [b]) = sg.chars ++ c :: (t ++ [b]) by simp, splitSign_chars sg c _ hc.1 hc.2]
+      have : binaryBody (decide (sg = .minus)) (c :: (t ++ [b])) = some (sg.apply (posValue 2 (c :: t))) := by
+        unfold binaryBody
+        have e : c :: (t ++ [b]) = (c :: t) ++ [b] := by simp
+        rw [e, List.getLast?_concat, List.dropLast_concat]
+        have hb' : (b == 'b' || b == 'B') = true := by rcases hb with rfl | rfl <;> decide
+        have hall' : (c :: t).all isBin = true := List.all_eq_true.mpr hall
+        simp only [hb', hall', List.isEmpty_cons, Bool.not_false, Bool.and_self, if_true]
+        rw [signed_decide, natOf_eq_posValue]
+      rw [this]
+  | octal sg ds hne hall =>
+    -- no digit 0 among ds (else the excluded class)
+    have hall' : ∀ c ∈ ds, isOct c = true := by
+      intro c hc
+      have h1 := hall c hc
+      by_cases h0 : c = '0'
+      · exact absurd ⟨sg, ds, rfl, hne, hall, h0 ▸ hc⟩ hk
+      · simp [isOct, isOctDigit] at *
+        have : c.toNat ≠ 48 := fun e => h0 (by
+          apply Char.ext; apply UInt32.toNat_inj.mp; simpa using e)
+        omega
+    unfold integerValueToInt matchBinary matchOctal
+    rw [splitSign_chars sg '0' ds (by decide) (by decide)]
+    have hb : binaryBody (decide (sg = .minus)) ('0' :: ds) = none := by
+      apply binaryBody_none_of_last
+      intro l hl
+      have hm : l ∈ '0' :: ds := List.mem_of_getLast? hl
+      simp at hm
+      rcases hm with rfl | hm
+      · decide
+      · exact isDec_not_b (isOct_isDec (hall' l hm))
+    rw [hb]
+    simp only [octalBody, List.all_eq_true.mpr hall', and_self, if_true]
+    rw [signed_decide, natOf_eq_posValue]
+  | decimalZero sg => cases sg <;> decide
+  | decimal sg d ds hd hall =>
+    have hc := isPos_not_sign hd
+    unfold integerValueToInt matchBinary matchOctal matchDecimal
+    rw [splitSign_chars sg d ds hc.1 hc.2]
+    have hb : binaryBody (decide (sg = .minus)) (d :: ds) = none := by
+      apply binaryBody_none_of_last
+      intro l hl
+      have hm : l ∈ d :: ds := List.mem_of_getLast? hl
+      simp at hm
+      rcases hm with rfl | hm
+      · exact isDec_not_b (isPos_isDec hd)
+      · exact isDec_not_b (hall l hm)
+    have hd0 : d ≠ '0' := by intro e; subst e; simp [isPos] at hd
+    rw [hb]
+    simp only [octalBody, hd0, false_and, if_false, decimalBody, hd, List.all_eq_true.mpr hall, and_self, if_true]
+    rw [signed_decide, natOf_eq_posValue]
+  | hex sg x ds hx hne hall =>
+    unfold integerValueToInt matchBinary matchOctal matchDecimal matchHex
+    rw [splitSign_chars sg '0' (x :: ds) (by decide) (by decide)]
+    have hxb : isBin x = false := by rcases hx with rfl | rfl <;> decide
+    have hxo : isOct x = false := by rcases hx with rfl | rfl <;> decide
+    have hb : binaryBody (decide (sg = .minus)) ('0' :: x :: ds) = none := by
+      unfold binaryBody
+      split
+      · rfl
+      · rename_i b hb
+        obtain ⟨ys, hys⟩ := List.getLast?_eq_some_iff.mp hb
+        rw [hys, List.dropLast_concat]
+        -- ys = '0' :: x :: ds.dropLast contains x
+        have hxm : x ∈ ys := by
+          cases ys with
+          | nil => simp at hys
+          | cons a ys' =>
+            cases ys' with
+            | nil =>
+              simp at hys
+              exact absurd hys.2.2 (by simp [hne])
+            | cons a' ys'' => simp at hys; simp [hys.2.1]
+        have : ys.all isBin = false := by
+          rw [List.all_eq_false]
+          exact ⟨x, hxm, by simp [hxb]⟩
+        simp [this]
+    rw [hb]
+    have hx' : (x = 'x' ∨ x = 'X') := hx
+    simp only [octalBody, List.all_cons, hxo, Bool.false_and, Bool.false_eq_true, and_false, if_false,
+      decimalBody, reduceCtorEq, show isPos '0' = false by decide, false_and, hexBody, hx', hne, ne_eq,
+      not_false_eq_true, List.all_eq_true.mpr hall, and_self, if_true]
+    rw [signed_decide, natOf_eq_posValue]
+
+/-- negation witness for the full statement (known finding C20-KF1) -/
+theorem intlit_octal_zero_witness :
+    IsIntegerValue ['0', '1', '0'] 8 ∧ integerValueToInt ['0', '1', '0'] = none ∧ OctalWithZeroDigit ['0', '1', '0'] := by
+  refine ⟨?_, by decide, ⟨.none, ['1', '0'], by simp [Sign.chars], by simp, by decide, by simp⟩⟩
+  have := IsIntegerValue.octal .none ['1', '0'] (by simp) (by decide)
+  simpa [Sign.chars, Sign.apply, posValue, digitVal, isDec] using this
+
+/-! ### the alphabet of literals -/
+/-- the characters an integer literal can consist of -/
+def litChar (c : Char) : Bool := c == '+' || c == '-' || isHex c || c == 'x' || c == 'X'
+
+theorem lit_of_hex {c : Char} (h : isHex c = true) : litChar c = true := by simp [litChar, h]
+theorem lit_of_dec {c : Char} (h : isDec c = true) : litChar c = true := by simp [litChar, isHex, h]
+theorem lit_of_bin {c : Char} (h : isBin c = true) : litChar c = true := by
+  simp [isBin] at h; rcases h with rfl | rfl <;> decide
+theorem lit_of_oct {c : Char} (h : isOct c = true) : litChar c = true := lit_of_dec (isOct_isDec h)
+theorem lit_of_pos {c : Char} (h : isPos c = true) : litChar c = true := lit_of_dec (isPos_isDec h)
+
+def AllLit (s : Str) : Prop := ∀ c ∈ s, litChar c = true
+
+theorem allLit_of_rest {s : Str} (h : AllLit (splitSign s).2) : AllLit s := by
+  rcases splitSign_eq s with e | e | e <;> rw [e] <;> intro c hc
+  · exact h c hc
+  · simp at hc; rcases hc with rfl | hc
+    · decide
+    · exact h c hc
+  · simp at hc; rcases hc with rfl | hc
+    · decide
+    · exact h c hc
+
+theorem intlit_allLit {s : Str} {v : Int} (h : integerValueToInt s = some v) : AllLit s := by
+  have hv := intlit_sound h
+  cases hv with
+  | binary sg ds b hne hall hb =>
+    intro c hc
+    simp at hc
+    rcases hc with hc | hc | rfl
+    · cases sg <;> simp [Sign.chars] at hc <;> subst hc <;> decide
+    · exact lit_of_bin (hall c hc)
+    · rcases hb with rfl | rfl <;> decide
+  | octal sg ds hne hall =>
+    intro c hc
+    simp at hc
+    rcases hc with hc | rfl | hc
+    · cases sg <;> simp [Sign.chars] at hc <;> subst hc <;> decide
+    · decide
+    · have := hall c hc
+      apply lit_of_dec
+      simp [isOctDigit, isDec] at *; omega
+  | decimalZero sg =>
+    intro c hc
+    simp at hc
+    rcases hc with hc | rfl
+    · cases sg <;> simp [Sign.chars] at hc <;> subst hc <;> decide
+    · decide
+  | decimal sg d ds hd hall =>
+    intro c hc
+    simp at hc
+    rcases hc with hc | rfl | hc
+    · cases sg <;> simp [Sign.chars] at hc <;> subst hc <;> decide
+    · exact lit_of_pos hd
+    · exact lit_of_dec (hall c hc)
+  | hex sg x ds hx hne hall =>
+    intro c hc
+    simp at hc
+    rcases hc with hc | rfl | rfl | hc
+    · cases sg <;> simp [Sign.chars] at hc <;> subst hc <;> decide
+    · decide
+    · rcases hx with rfl | rfl <;> decide
+    · exact lit_of_hex (hall c hc)
+
+theorem intlit_noNewline {s : Str} {v : Int} (h : integerValueToInt s = some v) : '\n' ∉ s := by
+  intro hm
+  have := intlit_allLit h '\n' hm
+  revert this; decide
 
 end Proofs.IntLit
